@@ -40,11 +40,12 @@ def search_while_another_process_writes(ctx, backend):
         for y in X:
             y.timeout = 900; assert y.call('C_Initialize', locking='os')['rv'] == 0
             sl = [q for q in y.call('C_GetSlotList', count=8)['slots'] if y.call('C_GetTokenInfo', slot=q)['flags'] & ck.CKF_TOKEN_INITIALIZED][0]; S.append(y.call('C_OpenSession', slot=sl)['h'])
-        nsearch = ctx.q(150, 400); ncreate = ctx.q(8, 24)
+        nsearch = ctx.q(150, 400); ncreate = ctx.q(3, 8) if backend == 'db' else ctx.q(8, 24)      # (a db create is some hundred transactions, each with its own syncs)
         sa = []
         for i in range(nsearch): sa += [{'fn': 'C_FindObjectsInit', 's': S[0], 'tmpl': A.T({'CKA_APPLICATION': b'keep'})}, {'fn': 'C_FindObjects', 's': S[0], 'max': 50}, {'fn': 'C_FindObjectsFinal', 's': S[0]}, {'fn': 'X_Sleep', 'us': 40000 if backend == 'db' else 15000}]
         sb = [{'fn': 'C_CreateObject', 's': S[1], 'tmpl': B.T({'CKA_CLASS': ck.CKO_DATA, 'CKA_TOKEN': True, 'CKA_PRIVATE': False, 'CKA_LABEL': b'other-%d' % i, 'CKA_APPLICATION': b'other', 'CKA_VALUE': b'o' * 16})} for i in range(ncreate)]
-        B.call('fs', mode='delay', root=d + '/tokens', seed=ctx.seed, p=0.5, maxus=8000 if backend == 'db' else 6000)      # ~700 (db) / ~200 (file) operations per create: a write transaction is held for some hundred milliseconds
+        if backend == 'db': B.call('fs', mode='delay', root=d + '/tokens', seed=ctx.seed, p=0.04, maxus=500000, kind='sync')      # SQLite holds its exclusive lock while it syncs the database file: slow storage = long lock
+        else: B.call('fs', mode='delay', root=d + '/tokens', seed=ctx.seed, p=0.5, maxus=6000)      # ~700 (db) / ~200 (file) operations per create: a write transaction is held for some hundred milliseconds
         B.send({'fn': 'threads', 'scripts': [sb], 'timeout': 900}); A.send({'fn': 'threads', 'scripts': [sa], 'timeout': 900})
         ra = A.recv(900)['results'][0]; rb = B.recv(900)['results'][0]; B.call('fs', mode='off')
         b0 = min(st['ns_call'] for st in rb); b1 = max(st['ns_ret'] for st in rb); during = 0; bad = 0
